@@ -67,7 +67,17 @@ def gen_case(seed, idx):
         opts["show_proc_parent"] = rng.random() < 0.3
     if rng.random() < 0.3:
         opts["max_frontpage_items"] = rng.randint(1, 4)
-    case = {"world": w, "options": opts, "layout": lay, "exclude": rng.random() < 0.3, "two_includes": rng.random() < 0.3, "pages": rng.random() < 0.35 and lay == "normal",
+    if opts["graph"] and rng.random() < 0.3:
+        opts["graph_maxdepth"] = rng.choice([1, 2])
+    if opts["graph"] and rng.random() < 0.3:
+        opts["graph_maxnodes"] = rng.choice([2, 4, 8])
+    if rng.random() < 0.3:
+        opts["extra_mods"] = ["netcdf: https://example.org/netcdf", "hdf5: https://example.org/hdf5"]
+    if rng.random() < 0.2:
+        opts["lower"] = True
+    if rng.random() < 0.3:
+        opts["alias"] = ["proj = The Project", "ver = 1.2.3"]
+    case = {"world": w, "options": opts, "layout": lay, "exclude": rng.random() < 0.3, "two_includes": rng.random() < 0.3, "fixed_form": rng.random() < 0.25, "pages": rng.random() < 0.35 and lay == "normal",
             "media": rng.random() < 0.25 and lay == "normal", "extra_ft": rng.random() < 0.2, "idx": idx}
     return case
 
@@ -126,7 +136,14 @@ def build_files(case, seed):
             files["p/media/" + n] = "media " + n
     gd = opts.get("graph_dir")
     graphdir = os.path.normpath(os.path.join("p", gd)) if gd else None
-    files["p/proj.md"] = W.render_project_file(opts, "Project body [[%s]] text.\n" % case["world"]["mods"][0]["name"])
+    if case.get("fixed_form"):
+        base = "p/src/" if lay == "normal" else "p/"
+        files[base + "legacy.f"] = ("C     a fixed-form source file\n      subroutine legacy(n)\nC!    documented fixed-form routine legacytracerq\n"
+                                    "      integer n\n      n = n +\n     &    1\n      end subroutine legacy\n")
+    body = "Project body [[%s]] text.\n" % case["world"]["mods"][0]["name"]
+    if opts.get("alias"):
+        body += "\nAliases: |proj| version |ver|.\n"
+    files["p/proj.md"] = W.render_project_file(opts, body)
     return files, argv, out, graphdir
 
 
@@ -435,7 +452,7 @@ def case_candidates(case):
         c["world"] = w
         if w["mods"]:
             yield desc, c
-    for k in ("pages", "media", "extra_ft", "exclude", "two_includes"):
+    for k in ("pages", "media", "extra_ft", "exclude", "two_includes", "fixed_form"):
         if case.get(k):
             c = copy.deepcopy(case)
             c[k] = False
@@ -446,7 +463,8 @@ def case_candidates(case):
         c = copy.deepcopy(case)
         if isinstance(v, bool) and v:
             c["options"][k] = False
-        elif k in ("graph_dir", "project_url", "max_frontpage_items", "display", "sort", "coloured_edges", "show_proc_parent"):
+        elif k in ("graph_dir", "project_url", "max_frontpage_items", "display", "sort", "coloured_edges", "show_proc_parent",
+                   "graph_maxdepth", "graph_maxnodes", "extra_mods", "lower", "alias"):
             del c["options"][k]
         else:
             continue
